@@ -98,6 +98,25 @@ class QGrammar:
             return 10 ** 6        # global queue: entering it never waits for a serialised resource
         return P.bottom(q)
 
+    def rank_lo(self, P, q):
+        """smallest hierarchy lock that entering q may need (differs from rank_hi only for queues that are retargeted at run time)"""
+        m = getattr(P, "moves", None)
+        if m and q in m:
+            return min(self._rank_via(P, q, t) for t in m[q])
+        return self.rank_of(P, q)
+
+    def rank_hi(self, P, q):
+        """largest hierarchy lock an item running on q may hold"""
+        m = getattr(P, "moves", None)
+        if m and q in m:
+            return max(self._rank_via(P, q, t) for t in m[q])
+        return self.rank_of(P, q)
+
+    def _rank_via(self, P, q, t):
+        if t < 0 or P.queues[t]["kind"] == 2:
+            return q
+        return P.bottom(t)
+
     def adapt_kind(self, P, kind, q, env):
         d = P.queues[q]
         if d["kind"] == 2 and kind in ("basync", "bsync", "baaw"):   # barriers are meaningless on global queues
@@ -106,7 +125,7 @@ class QGrammar:
             if d["kind"] == 4 and kind in ("sync", "bsync"):         # dispatch_sync onto a workloop is a client crash
                 kind = {"sync": "aaw", "bsync": "baaw"}[kind]
         if kind in SYNC_TO_ASYNC and env.in_item:
-            r = self.rank_of(P, q)
+            r = self.rank_lo(P, q)
             if not (r > env.rank):                                    # lock-order discipline on hierarchy bottoms (S1)
                 kind = SYNC_TO_ASYNC[kind]
         return kind
@@ -129,7 +148,7 @@ class QGrammar:
             kind = self.adapt_kind(P, kind, q, env)
             return self.emit_submit(P, kind, q, b, c, bodies, env)
         if kind == "await":
-            cands = [o for o in env.pending if (not env.in_item) or self.rank_of(P, o.a) > env.rank]
+            cands = [o for o in env.pending if (not env.in_item) or self.rank_lo(P, o.a) > env.rank]
             if not cands:
                 return None
             x = cands[a % len(cands)]
@@ -202,7 +221,7 @@ class QGrammar:
             env.pending.append(o)
         # item body
         bctx = P.body(o)
-        r = self.rank_of(P, q)
+        r = self.rank_hi(P, q)
         if kind in e3.SYNC_KINDS:
             nrank = env.rank if P.queues[q]["kind"] == 2 else max(env.rank, r)
         else:
@@ -508,10 +527,33 @@ class FullGrammar(QGrammar):
     serial_bottom = False
     pool_template = False
 
+    allow_retarget = False
+
     def build_graph(self, P, h):
         build_full_graph(P, h, allow_workloop=self.allow_workloop, serial_bottom=self.serial_bottom, allow_main=self.allow_main)
         P.groups = [0]
         P.pool_done = False
+        if self.allow_retarget:
+            self.plan_moves(P, h)
+
+    def plan_moves(self, P, h):
+        """run-time retargeting (legacy dispatch_set_target_queue on an ACTIVE queue): legal for queues made by dispatch_queue_create (+ set_target_queue)
+        that nothing targets. Each such 'movable' queue gets a fixed set of possible targets up front, so that the sync discipline can use the
+        smallest / largest hierarchy it may ever belong to (rank_lo / rank_hi). Hierarchies with a workloop or the main queue are left alone."""
+        P.moves = {}
+        if any(d["kind"] in (3, 4) for d in P.queues.values()):
+            return
+        targeted = {d["target"] for d in P.queues.values()}
+        movable = [q for q in P.custom if q not in targeted and not (P.queues[q]["flags"] & 3) and P.queues[q]["kind"] in (0, 1)]
+        fixed = [q for q in P.custom if q not in movable]
+        for i, q in enumerate(movable):
+            b = h[8 + i % 2] >> (i % 4)
+            if b % 3 == 0:
+                continue
+            cands = fixed + [GQ_DEFAULT, GQ_UTILITY]
+            dests = sorted({cands[(b >> 2) % len(cands)], cands[(b >> 4) % len(cands)]})
+            P.moves[q] = [P.queues[q]["target"]] + dests
+            P.queues[q]["chain"] = q if P.queues[q]["kind"] == 0 else -1     # the plain per-hierarchy record only makes sense for a fixed hierarchy
 
     def targets(self, P, env):
         return P.custom + [GQ_DEFAULT, GQ_UTILITY, GQ_OVERCOMMIT]
@@ -536,6 +578,17 @@ class FullGrammar(QGrammar):
             env.pending.append(first)
             P.features.add("tpl-nowait")
             return first
+        if kind == "retarget":
+            mv = [q for q in getattr(P, "moves", {}) if q % max(1, P.nthreads) == env.thread]
+            if env.in_item or not mv:
+                return None
+            q = mv[a % len(mv)]
+            nt = P.moves[q][b % len(P.moves[q])]
+            P.features.add("retarget-while-busy")
+            o = P.op(env.ctx, "settarget", a=q, b=nt if nt >= 0 else GQ_DEFAULT, thread=env.thread)
+            for i in range(1 + c % 3):       # keep it busy right behind the retarget
+                self.emit_submit(P, "async", q, c >> 2, c + i, bodies, env)
+            return o
         return QGrammar.emit_other(self, P, kind, a, b, c, bodies, env)
 
     def emit_pool(self, P, a, b, c, env):
